@@ -394,6 +394,13 @@ pub trait Spec: Sized + 'static {
     fn push_via<K: Sink<Self::R>>(k: &mut K, v: &Self::V, f: &mut Forms) -> K::Out;
     /// Push a read item (of any region of this type, or borrowed from an owned value).
     fn push_read<'a, K: Sink<Self::R>>(k: &mut K, item: RI<'a, Self>) -> K::Out;
+    /// Push a pre-built owned value by reference without creating temporaries (for
+    /// allocator-call measurements). `which` selects among the reference forms the composition
+    /// offers (0: the borrowed read item; others default to it).
+    fn push_owned_ref<'a, K: Sink<Self::R>>(k: &mut K, o: &'a Own<Self>, _which: usize) -> K::Out {
+        let b: RI<'a, Self> = flatcontainer::IntoOwned::borrow_as(o);
+        Self::push_read(k, b)
+    }
     /// Push a batch through `Extend`/`FromIterator` in one homogeneous form.
     fn push_all_via<K: BatchSink<Self::R>>(k: &mut K, vs: &[Self::V], f: &mut Forms);
     /// `ReserveItems` through one of the offered forms; false when the region has none.
